@@ -210,6 +210,12 @@ pub fn generate_c17(seed: u64) -> W4Scn {
         ((n as f64) * *r.pick(&[0.5f64, 1.0, 3.0, 20.0]), *r.pick(&[0.01f64, 0.1, 1.0]))
     };
     let order_ratio = *r.pick(&[0.0f64, 0.0, 1.0, 2.0, 0.5]);
+    // heavy-tailed limit-price distances (the documentation's sigma = 10) at a low price level: distances beyond the
+    // mid-price (buy quotes clamped at 0) and beyond the top of the range (sell quotes clamped) both occur
+    let sigma = *r.pick(&[0.5f64, 0.5, 0.5, 3.0, 10.0]);
+    if sigma > 1.0 {
+        cfg.centre = r.range(1_000, 5_000) as u32;
+    }
     let style = r.below(5);
     let decay = if style == 4 { 0.5 } else { *r.pick(&[1.0f64, 1.0, 0.5, 0.9, 0.25]) };
     let spec = AgentSpec::Momentum {
@@ -223,7 +229,7 @@ pub fn generate_c17(seed: u64) -> W4Scn {
         scale,
         order_ratio,
         mu: (r.range(0, 20) as f64) / 10.0,
-        sigma: 0.5,
+        sigma,
     };
     // imposed mid-price path: rising, falling, mixed, flat segments (offsets in ticks, optional half tick)
     let len = r.range(4, 60) as usize;
